@@ -80,6 +80,16 @@ def snapshot(f, i):
 
 
 def diff_worker(job):
+    from common import JobTimeout, time_limit
+    try:
+        with time_limit(300):
+            return _diff_worker(job)
+    except JobTimeout:
+        cfg, kind, tight = job
+        return {"cfg": cfg, "kind": kind, "tight": tight, "error": "timeout (> 300 s)"}
+
+
+def _diff_worker(job):
     cfg, kind, tight = job
     res = {"cfg": cfg, "kind": kind, "tight": tight}
     cls = evolve_mf.EvolvedMFWithBH if kind == "fbh" else evolve_mf.EvolvedMF
